@@ -44,6 +44,10 @@ theorem sign_err_null (d : Option Data) (key : Option (List Nat)) (o : Bool) (h 
   · rfl
   · cases d <;> rfl
 
+/-- `!data->nlri` (repaired argument check) -/
+theorem sign_err_null_nlri (d : Option Data) (key : Option (List Nat)) (o : Bool) :
+    generateEntry hash loadKey sign d true key o = (.invalidArguments, none) := rfl
+
 /-- `!data->path || *new_signature != NULL` -/
 theorem sign_err_arguments (d : Data) (key : List Nat) (o : Bool) (h : d.path = [] ∨ o = false) :
     (generateSignature hash loadKey sign (some d) (some key) o).1 = .invalidArguments := by
